@@ -25,6 +25,9 @@ RULE = ('batches of generated programs (stratified programs, control bodies with
         'distinct = hash of the program text')
 ASSUMPTIONS = ['byte equality of the returned text is the oracle', 'debug output written to the options\' stream is not part '
                'of the returned value and is not compared']
+RULE_ADDED = (' Added after the rounds of independently written changes (DESIGN.md 12.2): ' +
+              "file-API compilations interleaved in the history, also after a same-size rewrite with the old modification time; option objects inheriting from the library's default class; pairs of programs with confusable ground terms; wide relational rules with 8-20 head and 10-60 body variables.")
+RULE = RULE + RULE_ADDED
 
 WORKER = r'''
 import sys, json, hashlib, io, random, re
